@@ -16,6 +16,14 @@
 // relation and calling contract are positions in the real chain, so an
 // implementation that decides them by comparing hashes disagrees there.
 // Every level also asks for the zero account (never witnessed).
+//
+// Extension "facts" (ext_facts_test.go): chains in which a contract replaces
+// its manifest groups or destroys itself DURING the execution (optionally
+// rolled back by a caught exception); every configuration is asked before the
+// change, after it in the same context, in the older contexts and in fresh
+// ones; the predicate is evaluated over the groups ContractManagement holds at
+// the moment of each check, and the three ways of asking about a group (Group,
+// CustomGroups, CalledByGroup from the callee) must agree.
 package c15
 
 import (
@@ -93,9 +101,13 @@ func containsZ(c *scond) bool {
 }
 
 func makePlans(r *vk.Run, chains []chain) []plan {
-	all := make([]int, len(chains))
-	for i := range all {
-		all[i] = i
+	var all, changing []int // chains of the "facts" extension get their own plan only
+	for i, c := range chains {
+		if len(c.Muts) > 0 {
+			changing = append(changing, i)
+		} else {
+			all = append(all, i)
+		}
 	}
 	var plans []plan
 	R := byte(transaction.Rules)
@@ -141,8 +153,8 @@ func makePlans(r *vk.Run, chains []chain) []plan {
 	p3chains := all
 	if !r.Thorough() {
 		p3chains = nil // quick: chains of up to 2 steps
-		for i, c := range chains {
-			if len(c.Steps) <= 2 {
+		for _, i := range all {
+			if len(chains[i].Steps) <= 2 {
 				p3chains = append(p3chains, i)
 			}
 		}
@@ -156,12 +168,14 @@ func makePlans(r *vk.Run, chains []chain) []plan {
 		}
 	}
 	plans = append(plans, plan{Name: "zero-caller", Cfgs: singleRulePlanCfgs([]cfg{{Scope: R}}, rulesOf(zc)), Chains: all, Zero: true})
+	// facts: configurations reading groups x chains in which a contract changes its groups / destroys itself
+	plans = append(plans, plan{Name: "facts", Cfgs: factsCfgs(r.Thorough()), Chains: changing})
 	if r.Thorough() {
 		// the two big thorough plans run on every base chain and on the identity
 		// extension's chains of up to 2 steps (their 3-step chains get the four plans above)
 		var heavy []int
-		for i, c := range chains {
-			if c.family() == "base" || len(c.Steps) <= 2 {
+		for _, i := range all {
+			if c := chains[i]; c.family() == "base" || len(c.Steps) <= 2 {
 				heavy = append(heavy, i)
 			}
 		}
@@ -226,6 +240,7 @@ func TestCheck(t *testing.T) {
 	ext := identityChains(r.Thorough()) // ext_ident_test.go: contexts sharing a script hash, deployed contract as entry
 	sort.SliceStable(ext, func(i, j int) bool { return len(ext[i].Steps) < len(ext[j].Steps) })
 	chains = append(chains, ext...)
+	chains = append(chains, factsChains(r.Thorough())...) // ext_facts_test.go: the facts change during the execution
 	nw := r.Workers()
 	pool := make(chan *world, nw)
 	var first *world
@@ -256,7 +271,17 @@ func TestCheck(t *testing.T) {
 	if only == "match" {
 		plans = nil
 	}
-	var invocations, evals, cwTrue, cwFalse, undecided, contRuns, stateCount vk.Counter
+	if pn := os.Getenv("C15_PLAN"); pn != "" { // development aid: one plan (never exhaustive)
+		r.Capped()
+		var keep []plan
+		for _, p := range plans {
+			if p.Name == pn {
+				keep = append(keep, p)
+			}
+		}
+		plans = keep
+	}
+	var invocations, evals, cwTrue, cwFalse, undecided, contRuns, stateCount, factsDep, agreeCmp vk.Counter
 	ctxSet := vk.NewSet()
 	cells := vk.NewSet()
 	var mu sync.Mutex
@@ -302,6 +327,8 @@ func TestCheck(t *testing.T) {
 			cwTrue.Add(st.True)
 			cwFalse.Add(st.False)
 			undecided.Add(st.Undecided)
+			factsDep.Add(st.FactsDep)
+			agreeCmp.Add(agreementPairs(b, cfgs))
 			for k := range st.Contexts {
 				ctxSet.Add(k)
 			}
@@ -343,7 +370,7 @@ func TestCheck(t *testing.T) {
 				if m.Slot >= 0 && m.Slot < len(cfgs) {
 					f.Cfg = cfgs[m.Slot].String()
 					scope = scopeString(cfgs[m.Slot].Scope)
-				} else if m.Query == fixedLabel {
+				} else if strings.HasPrefix(m.Query, fixedLabel) {
 					f.Cfg = "fixed signer (account = contract B): " + fixedCfg.String()
 				}
 				q := queryKind(m.Query)
@@ -392,6 +419,11 @@ func TestCheck(t *testing.T) {
 	for name, fs := range fams {
 		famInfo[name] = map[string]any{"chain_variants": len(fs.chains), "invocations": fs.inv, "checkwitness_evaluations": fs.evals,
 			"distinct_check_situations": len(fs.sits), "distinct_outcome_classes": len(fs.classes), "levels_sharing_a_hash_with_another_context": len(fs.cells)}
+		if strings.HasPrefix(name, "facts-") { // scalars survive the merge of the evidence
+			k := strings.ReplaceAll(name, "-", "_")
+			cov[k+"_chain_variants"], cov[k+"_invocations"], cov[k+"_checkwitness_evaluations"] = len(fs.chains), fs.inv, fs.evals
+			cov[k+"_distinct_check_situations"], cov[k+"_distinct_outcome_classes"] = len(fs.sits), len(fs.classes)
+		}
 		for c := range fs.cells {
 			for _, t := range []string{"+cur=entry", "+caller=entry", "+cur=caller", "+repeated"} {
 				if strings.Contains(c, t) {
@@ -400,6 +432,8 @@ func TestCheck(t *testing.T) {
 			}
 		}
 	}
+	cov["facts_verdicts_that_differ_from_the_verdict_over_groups_at_context_load"] = int(factsDep.Get())
+	cov["facts_agreement_comparisons"] = int(agreeCmp.Get())
 	cov["vm_families"] = famInfo
 	cov["vm_levels_by_hash_coincidence"] = tagCells
 	cov["vm_chain_levels"] = cells.Len()
@@ -417,6 +451,8 @@ func TestCheck(t *testing.T) {
 		"identity extension: chains with steps S (LoadScript of a byte-identical copy of the entry script, bytes taken from System.Runtime.GetScriptContainer) and T (copies of one shared dynamic script), and chains whose entry context is verify(prog) of a deployed contract W(G2)/V(no group) under the Verification trigger (blockchain.InitVerificationContext; the invocation script only pushes the program and executes no check); the predicate's entry relation and calling contract are chain POSITIONS (level <= 1, level-1), never hash comparisons; a level marker account asked first at every level proves which body of a polymorphic script ran",
 		"a dynamic script byte-identical to a deployed contract's script does not have the contract's hash (contract hash = H(sender, NEF checksum, name)), so no context pair of that kind shares a hash; not enumerated",
 		"key-to-account mapping (verification script hash of a public key) and manifest group signature checks are trusted",
+		"facts extension: a contract of the chain (A, B(G1) or C(G1,G2), entry + up to 3 steps, optionally a dynamic script loaded last) replaces its manifest groups by another set (ContractManagement.update with nef=null and the same manifest re-signed for the new groups) or destroys itself, between two rounds of checks and before calling the next step; with `throw` the frame throws after its second round and the calling contract catches (the change is rolled back); the groups of a contract are the groups ContractManagement holds at the moment of the check (a destroyed contract has none) - the harness reads them through the execution's own DAO at every check and reports a difference from the model as 'stored-groups-differ-from-model'; a destroyed contract is not called again (the call would fault); update is always done by the contract itself (ContractManagement updates its caller), 'changed by a callee' is the re-entrant shape X>Y>X",
+		"facts extension, not enumerated: _deploy callbacks (U has none), updates replacing the script, chains with native callers or without ReadStates, contracts deployed during the execution",
 	})
 }
 
@@ -429,6 +465,7 @@ func runJob(w *world, b *built, cfgs []cfg, validateCont bool) ([]mismatch, *eva
 		return []mismatch{{What: "harness-error", Slot: -1, Detail: err.Error()}}, st
 	}
 	fails := judge(b, ref, len(cfgs), trace, state, fault, st)
+	fails = append(fails, judgeAgreement(b, cfgs, trace)...)
 	if validateCont && b.Chain.NoRS {
 		// the uninterrupted run: identical up to and including the first error, then FAULT
 		t2, s2, f2, err := w.invoke(b, real, false)
